@@ -11,6 +11,7 @@ import (
 	"fmt"
 	"go/ast"
 	"go/parser"
+	"go/printer"
 	"go/token"
 	"os"
 	"path/filepath"
@@ -753,8 +754,62 @@ func genSkeleton(repo, out string) {
 	}
 }
 
+// ---------- bodies: the normalised source of every function the models are hand translations of ----------
+
+// genBodies writes, per top-level function / method / var / const declaration of the modelled packages,
+// its source without comments in gofmt form. The check compares it with the golden copy the models
+// were written against: a model is only as current as the source it translates.
+func genBodies(repo, out string) {
+	dirs := []string{".", "wal", "table", "types", "utils", "pkg/watermark", "pkg/bufferpool", "pkg/kway", "pkg/filter", "pkg/skiplist"}
+	var blocks []string
+	for _, d := range dirs {
+		p := parseDir(filepath.Join(repo, d))
+		for _, f := range p.files {
+			for _, dd := range f.Decls {
+				var key string
+				switch x := dd.(type) {
+				case *ast.FuncDecl:
+					key = x.Name.Name
+					if x.Recv != nil && len(x.Recv.List) > 0 {
+						key = typeName(x.Recv.List[0].Type) + "." + key
+					}
+				case *ast.GenDecl:
+					if x.Tok != token.CONST && x.Tok != token.VAR {
+						continue
+					}
+					var names []string
+					for _, sp := range x.Specs {
+						if vs, ok := sp.(*ast.ValueSpec); ok {
+							for _, n := range vs.Names {
+								names = append(names, n.Name)
+							}
+						}
+					}
+					if len(names) == 0 {
+						continue
+					}
+					key = x.Tok.String() + ":" + strings.Join(names, ",")
+				default:
+					continue
+				}
+				var sb strings.Builder
+				cfg := printer.Config{Mode: printer.UseSpaces | printer.TabIndent, Tabwidth: 8}
+				if err := cfg.Fprint(&sb, token.NewFileSet(), dd); err != nil {
+					fatal(err)
+				}
+				blocks = append(blocks, "### "+d+":"+key+"\n"+strings.TrimSpace(sb.String())+"\n")
+			}
+		}
+	}
+	sort.Strings(blocks)
+	if err := os.WriteFile(out, []byte(strings.Join(blocks, "\n")), 0644); err != nil {
+		fatal(err)
+	}
+}
+
 func main() {
 	repo := flag.String("repo", "/repo", "repository root")
+	bodies := flag.String("bodies", "", "output file: normalised source of the modelled declarations")
 	consts := flag.String("consts", "", "output Lean file")
 	skeleton := flag.String("skeleton", "", "output skeleton file")
 	locktable := flag.String("locktable", "", "output Lean lock table")
@@ -767,5 +822,8 @@ func main() {
 	}
 	if *skeleton != "" {
 		genSkeleton(*repo, *skeleton)
+	}
+	if *bodies != "" {
+		genBodies(*repo, *bodies)
 	}
 }
